@@ -111,8 +111,10 @@ def run_case(case: Dict[str, Any]) -> Dict[str, Any]:
                     oname = 'R%dU%d' % (ri, ui)
 
                     def responder(req: Dict[str, Any], name: str) -> List[bytes]:
+                        big = int(req['hd'].get(b'x-want-bytes', b'0'))
                         pcs = conv.tagged_response(rng, name, req['hd'].get(b'x-req-id', b'?').decode('latin-1'),
-                                                   framing=rng.choice(['cl', 'chunked']), pieces=rng.choice([1, 3]))
+                                                   framing=rng.choice(['cl', 'chunked']), pieces=rng.choice([1, 3]),
+                                                   extra=rng.randbytes(big) if big else b'')
                         sent_by_origin[name] = sent_by_origin.get(name, b'') + b''.join(pcs)
                         return pcs
                     origins[(ip, o.port)] = conv.AutoOrigin(o, oname, responder)
@@ -130,17 +132,22 @@ def run_case(case: Dict[str, Any]) -> Dict[str, Any]:
             _table.append(r)
         lookups = resolver.reset(names)
         alog = audit.start()
-        client = rig.add_client(case.get('transport', 'unix'))
+        slow = case.get('reader') == 'slow'
+        client = rig.add_client(case.get('transport', 'unix'), rcvbuf=8192 if slow else None)
         nconn_before = 0
         for qi, q in enumerate(case['requests']):
             path = q['path'].encode()
             rid = 'c%d-%d' % (case['i'], qi)
             hdrs = [(rng.choice([b'Host', b'Host', b'host', b'HOST', b'hOsT']), b'front.example:8899'), (b'X-Req-Id', rid.encode())] + [(k.encode(), v.encode()) for k, v in q['headers']]
+            if q.get('want_bytes'):
+                hdrs.append((b'X-Want-Bytes', b'%d' % q['want_bytes']))
+            if q.get('last') == 'close':
+                hdrs.append((rng.choice([b'Connection', b'connection']), b'close'))
             body = q['body'].encode()
             if body or q['method'] in ('POST', 'PUT', 'PATCH'):
                 hdrs.append((b'Content-Length', b'%d' % len(body)))
             rng.shuffle(hdrs)
-            raw = b'%s %s HTTP/1.1\r\n' % (q['method'].encode(), path) + b''.join(k + b': ' + v + b'\r\n' for k, v in hdrs) + b'\r\n' + body
+            raw = b'%s %s HTTP/%s\r\n' % (q['method'].encode(), path, b'1.0' if q.get('last') == 'http10' else b'1.1') + b''.join(k + b': ' + v + b'\r\n' for k, v in hdrs) + b'\r\n' + body
             want = reference_route(_table, path)
             mclass = 'none' if want is None else ('several' if sum(1 for r in _table if re.match(r['regex'], path.decode())) > 1 else 'one')
             sets['match_classes'].add(mclass + ':' + (want['kind'] if want else '-'))
@@ -158,11 +165,16 @@ def run_case(case: Dict[str, Any]) -> Dict[str, Any]:
                     ao.tick()
                     for c in ao.conns:
                         c.send_some()
+                if slow:
+                    client.pump(4096)       # a client that drains a few KiB per loop iteration through a small receive buffer
                 if client.ended:
                     return True
+                owed = sum(len(v) for v in sent_by_origin.values())
+                if owed > 60000 and len(client.rx) - before_len < owed:
+                    return False            # large relays: do not re-parse a megabyte per iteration
                 ms, err, _ = h11util.parse_responses(bytes(client.rx[before_len:]), [q['method'].encode()], eof=False)
                 return bool(err) or any(m['complete'] for m in ms)
-            rig.until(done, [client], idle_timeout=case.get('grace', 0.4))
+            rig.until(done, [] if slow else [client], idle_timeout=case.get('grace', 0.4))
             rig.settle([client], quiet=4)
             for ao in origins.values():
                 ao.tick()
@@ -232,6 +244,15 @@ def run_case(case: Dict[str, Any]) -> Dict[str, Any]:
             if got != expect:
                 bad('response-not-relayed-unmodified', diff=monitors.diff_streams(expect, got))
             obs['routed_checked'] = obs.get('routed_checked', 0) + 1
+            if len(expect) > 131072:
+                obs['large_relays_checked'] = obs.get('large_relays_checked', 0) + 1
+            if slow and len(expect) > 20000:
+                obs['slow_reader_relays_checked'] = obs.get('slow_reader_relays_checked', 0) + 1
+            if q.get('last') and qi > 0:
+                obs['nonkeepalive_followups_checked'] = obs.get('nonkeepalive_followups_checked', 0) + 1
+                prev = reference_route(_table, case['requests'][qi - 1]['path'].encode())
+                if prev is not None and prev['kind'] == 'dyn-literal':
+                    obs['nonkeepalive_after_literal_checked'] = obs.get('nonkeepalive_after_literal_checked', 0) + 1
             if viol:
                 break
     except LoopDied as e:
@@ -293,13 +314,32 @@ def cases(tier: str, seed: int):
             cls = rng.choice(['none', 'one', 'one', 'one', 'several', 'several'])
             path = rng.choice(pool[cls] or pool['one'] or PATHS)
             reqs.append({'method': method, 'path': path, 'headers': hs, 'body': body, 'ncuts': rng.choice([0, 0, 2])})
-        yield {'seed': seed, 'i': i, 'routes': routes, 'requests': reqs, 'rewrite': i % 2 == 0,
+        reader = 'eager'
+        shape = i % 25
+        if shape in (0, 1):
+            # large and slowly drained relays: more upstream data arrives while earlier data is still queued for the client
+            reader = 'slow' if shape == 1 else 'eager'
+            for q in reqs:
+                q['want_bytes'] = rng.choice([30000, 70000, 140000, 200000, 300000] + ([1 << 20] if tier != 'quick' or rng.random() < 0.3 else []))
+        elif shape in (2, 3):
+            # a literal answer followed by a non-keep-alive request for an upstream route (and the other way round)
+            routes = [{'kind': 'dyn-literal', 'regex': r'/items/[a-z]+$', 'body': 'literal-%d-' % i + 'L' * rng.choice([0, 300])},
+                      {'kind': rng.choice(['static', 'dyn-url']), 'regex': r'/a/',
+                       'urls': [{'by_name': False, 'port': True, 'path': rng.choice(['', '/base', '/get?fixed=1'])}]}]
+            rng.shuffle(routes)
+            seq = ['/items/abc', '/a/x'] if shape == 2 else ['/a/x', '/items/abc', '/a/x/y']
+            reqs = [{'method': rng.choice(['GET', 'POST']), 'path': p, 'headers': [], 'body': '', 'ncuts': rng.choice([0, 2])} for p in seq]
+        if rng.random() < 0.3 or shape in (2, 3):
+            reqs[-1]['last'] = rng.choice(['close', 'http10'])
+        yield {'seed': seed, 'i': i, 'routes': routes, 'requests': reqs, 'rewrite': i % 2 == 0, 'reader': reader,
                'transport': rng.choice(['unix', 'tcp']), 'mode': rng.choice(['local', 'local', 'remote'])}
 
 
 def floors(tier: str) -> Dict[str, int]:
     return {'routed_checked': 300, 'unrouted_checked': 100, 'literal_checked': 30, 'match:several': 30, 'rewrite:True': 100,
-            'rewrite:False': 100, 'distinct:url_shapes': 8, 'distinct:choices': 4}
+            'rewrite:False': 100, 'distinct:url_shapes': 8, 'distinct:choices': 4,
+            'large_relays_checked': 20, 'slow_reader_relays_checked': 15, 'nonkeepalive_followups_checked': 60,
+            'nonkeepalive_after_literal_checked': 30}
 
 
 if __name__ == '__main__':
